@@ -1,4 +1,5 @@
 import NutilsVerif.Model.C10
+import NutilsVerif.Model.C10Axis
 open NutilsVerif NutilsVerif.Proto NutilsVerif.C10
 
 /-! line protocol of the C10 model (see `harness/nvh/c10.py`) -/
@@ -38,8 +39,31 @@ def showRef : Ref1 → String
 def showCuts (l : List (Nat × Bool)) : String :=
   ";".intercalate (l.map fun p => s!"{p.1},{if p.2 then 1 else 0}")
 
+def parseAxisOp (s : String) : Option AxisOp :=
+  match words s with
+  | ["R"] => some .refined
+  | ["G", a, b] => match a.toInt?, b.toInt? with
+    | some a, some b => some (.getitem a b)
+    | _, _ => none
+  | ["B", k] => k.toNat?.map .boundary
+  | ["I", "0"] => some (.intaxis false)
+  | ["I", "1"] => some (.intaxis true)
+  | ["O"] => some .opposite
+  | _ => none
+
+def parseAxisOps (s : String) : Option (List AxisOp) :=
+  if s.trimAscii.toString == "" then some [] else (s.splitOn ";").mapM parseAxisOp
+
 def handle (line : String) : String :=
   match fields line with
+  | ["axis", ax, ops] =>
+    match parseInts ax, parseAxisOps ops with
+    | some [i, j, m, p], some ops =>
+      if m < 0 || i > j || (p != 0 && p != 1) then "bad-request" else
+      match axisRun { i := i, j := j, mod := m.toNat, isdim := true, flag := p == 1 } ops with
+      | .ok a => s!"ok|{a.i} {a.j} {a.mod} {if a.isdim then 1 else 0} {if a.flag then 1 else 0}|{showInts a.cells}"
+      | .error e => s!"err|{e}"
+    | _, _ => "bad-request"
   | ["hier", lo, hi, ops] =>
     match parseNats lo, parseNats hi, parseOps ops with
     | some lo, some hi, some ops =>
